@@ -28,13 +28,6 @@ MCNext == PickFam \/ PickCard \/ PickArg \/ PickOrder
 TablesOK == TableWellFormed /\ EveryKeywordPlaced
 
 CardKinds == {"not-allowed", "missing", "too-many", "cell", "unknown-keyword"}
-\* the verdict read off the table cell, without walking the tree
-CellVerdict(P, C, cnt) ==
-  IF C = ExtKw THEN "accept"
-  ELSE IF C \notin Keywords THEN (IF cnt = 0 THEN "accept" ELSE "reject")
-  ELSE IF CellUnjudged(P, C, cnt) THEN "unjudged"
-  ELSE IF C \notin DOMAIN Sub(P) THEN (IF cnt = 0 THEN "accept" ELSE "reject")
-  ELSE IF cnt >= Sub(P)[C][1] /\ cnt <= Sub(P)[C][2] THEN "accept" ELSE "reject"
 CardMinimalB ==
   st[1] = "card" =>
     LET P == st[2]  C == st[3]  n == st[4]
@@ -69,9 +62,22 @@ ExtAnywhereB ==
     LET X == PStmt(st[2], st[3], 1)
         Y == St(X.kw, X.arg, <<Lf(ExtKw, "x")>> \o X.subs \o <<Lf(ExtKw, "y")>>) IN
     Expect(Complete(Embed(Y))).verdict = Expect(Complete(Embed(X))).verdict
+\* the compact prescription for large counts (BigExpand / BigExpect) is what Valid says of the really expanded tree
+BigConsistentB ==
+  st[1] = "card" /\ st[4] = 1 /\ st[3] \in BigKw =>
+    LET P == st[2]  C == st[3]  T == 20
+        X == PStmt(P, C, 1)
+        d == BigExpand(P, C, T)[2][1]
+        Y == Replicate(X, RepIndex(X, C, P), d.n, d.rename)
+        ev == Expect(Complete(Embed(Y))).verdict
+        cv == CellVerdict(P, C, T) IN
+    /\ Count(Y, C) = T
+    /\ (cv = "accept" => ev # "reject")        \* copies may add unjudged parts (equal typedef names are renamed away)
+    /\ (cv = "reject" => ev = "reject")
 \* a failing state is printed (all of them with -continue)
 CardMinimal == CardMinimalB \/ (PrintT(<<"MCFAIL", "CardMinimal", st>>) /\ FALSE)
 ArgMinimal == ArgMinimalB \/ (PrintT(<<"MCFAIL", "ArgMinimal", st>>) /\ FALSE)
 OrderMinimal == OrderMinimalB \/ (PrintT(<<"MCFAIL", "OrderMinimal", st>>) /\ FALSE)
 ExtAnywhere == ExtAnywhereB \/ (PrintT(<<"MCFAIL", "ExtAnywhere", st>>) /\ FALSE)
+BigConsistent == BigConsistentB \/ (PrintT(<<"MCFAIL", "BigConsistent", st>>) /\ FALSE)
 =============================================================================
